@@ -629,6 +629,11 @@ func opcodeCheckLockTimeVerify(op *ParsedOpcode, t *thread) error {
 		return nil
 	}
 
+	// The lock time is compared with that of the transaction being verified.
+	if t.tx == nil {
+		return errs.NewError(errs.ErrInvalidParams, "tx must be supplied for checklocktimeverify")
+	}
+
 	// The current transaction locktime is a uint32 resulting in a maximum
 	// locktime of 2^32-1 (the year 2106).  However, scriptNums are signed
 	// and therefore a standard 4-byte scriptNum would only support up to a
